@@ -124,6 +124,13 @@ Theorem C01_control_fallback_unconditional :
 Proof. exact control_fallback_unconditional. Qed.
 Print Assumptions C01_control_fallback_unconditional.
 
+(* the model has one failing-hook flag per moment; the callbacks run two weight passes per moment:
+   in the source of this run the error of the negative-weight pass is never overwritten or dropped
+   before it reaches e.Cancel, so C01_failed_is_error covers a critical hook failing in either pass *)
+Theorem C01_hook_errors_not_lost : env_hook_errors_lost = 0.
+Proof. exact hook_errors_not_lost. Qed.
+Print Assumptions C01_hook_errors_not_lost.
+
 (* ... and one that returns no error ends in the documented destination, reported as such *)
 Theorem C01_success_is_documented :
   forall o ot ev w,
